@@ -1,5 +1,5 @@
 From Coq Require Import Extraction ExtrOcamlBasic.
-From RB Require Import Base.Prelude Sig.Types Sig.Parser Wire.Value Wire.Unmarshal Wire.Derive Wire.Enums Wire.C16Ops.
+From RB Require Import Base.Prelude Sig.Types Sig.Parser Wire.Value Wire.Unmarshal Wire.Derive Wire.Enums Wire.EnumsIn Wire.C16Ops.
 Extraction Language OCaml.
 Set Extraction Output Directory ".".
-Extraction "gen_model.ml" parse_description to_str sig_r ty_of op_struct op_hassig op_enum op_outside.
+Extraction "gen_model.ml" parse_description to_str sig_r ty_of op_struct op_hassig op_enum op_outside op_container.
